@@ -227,7 +227,13 @@ def run(tier, r):
     nontrivial = 0
     for fam, args in mem:
         mseed = r.getrandbits(48)
-        viol, info = check_member(fam, args, mseed)
+        res, err = oc.guarded(check_member, fam, args, mseed)
+        if err is not None:
+            violations.append({"property": "C10", "family": fam, "args": list(args), "mseed": mseed, "tier": tier,
+                               "clause": "exception", "observed": err})
+            stats["exceptions"] = stats.get("exceptions", 0) + 1
+            continue
+        viol, info = res
         for c in viol:
             c["tier"] = tier
         violations += viol
@@ -253,6 +259,9 @@ def run(tier, r):
 
 
 def replay(case):
-    viol, info = check_member(case["family"], tuple(case["args"]), case["mseed"])
+    res, err = oc.guarded(check_member, case["family"], tuple(case["args"]), case["mseed"])
+    if err is not None:
+        return {"reproduced": case["clause"] == "exception", "detail": err}
+    viol, info = res
     hit = [c for c in viol if c["clause"] == case["clause"]]
     return {"reproduced": bool(hit), "detail": hit[0]["observed"] if hit else {"info": info}}
